@@ -55,6 +55,6 @@ func main() {
 			return n + 6000
 		},
 		WallCap:     map[string]time.Duration{"quick": 150 * time.Second, "thorough": 15 * time.Minute},
-		CallTimeout: 120 * time.Second,
+		CallTimeout: 120 * time.Second, HangIsViolation: true,
 	})
 }
